@@ -129,6 +129,59 @@ func MonSwapTx(rep *report.Report, h History) {
 				rep.Violate("C03/tx/drained", fmt.Sprintf("pool %d drained", asset), replayOf(h, s.StepNo))
 			}
 		}
+		// the output never exceeds the fee-free constant-product output adjusted by the ratio-shifting rate, less the fee
+		// rate configured for the SOLD token (its per-token override if there is one, else the default), one base unit per leg
+		fee := s.Pre.Params.FeeDefault
+		for _, ft := range s.Pre.Params.FeeTokens {
+			if ft[0].Int64() == sent {
+				fee = ft[1]
+				break
+			}
+		}
+		legBound := func(toRowan bool, p *env.Pool, x *big.Int) *big.Int { // floor of the bound, plus one
+			var X, Y *big.Int
+			if toRowan {
+				X, Y = new(big.Int).Add(p.EB, p.EL), new(big.Int).Add(p.NB, p.NL)
+			} else {
+				X, Y = new(big.Int).Add(p.NB, p.NL), new(big.Int).Add(p.EB, p.EL)
+			}
+			if X.Sign() == 0 && x.Sign() == 0 {
+				return big.NewInt(1)
+			}
+			one := chain.E(18)
+			raw := new(big.Rat).SetFrac(new(big.Int).Mul(x, Y), new(big.Int).Add(X, x))
+			pf := new(big.Rat).SetFrac(new(big.Int).Add(one, s.Pre.Params.Pmtp), one)
+			if toRowan {
+				raw.Quo(raw, pf)
+			} else {
+				raw.Mul(raw, pf)
+			}
+			raw.Mul(raw, new(big.Rat).SetFrac(new(big.Int).Sub(one, fee), one))
+			fl := new(big.Int).Quo(raw.Num(), raw.Denom())
+			return fl.Add(fl, big.NewInt(1))
+		}
+		ub := func(what string, got, bound *big.Int) {
+			if got.Cmp(bound) > 0 {
+				rep.Violate("C03/tx/upper-bound", fmt.Sprintf("%s: %s exceeds x*Y/(X+x) adjusted by the ratio-shifting rate less the sold token's fee rate %s (bound %s)", what, got, fee, bound), replayOf(h, s.StepNo))
+			}
+		}
+		switch {
+		case sent == 0:
+			if p0 := poolOf(s.Pre, recv); p0 != nil {
+				ub("native->external output", emit, legBound(false, p0, m.X))
+			}
+		case recv == 0:
+			if p0 := poolOf(s.Pre, sent); p0 != nil {
+				ub("external->native output", emit, legBound(true, p0, m.X))
+			}
+		default:
+			p0, p1, q0 := poolOf(s.Pre, sent), poolOf(s.Post, sent), poolOf(s.Pre, recv)
+			if p0 != nil && p1 != nil && q0 != nil {
+				mid := new(big.Int).Sub(p0.NB, p1.NB)
+				ub("external->external first leg", mid, legBound(true, p0, m.X))
+				ub("external->external second leg", emit, legBound(false, q0, mid))
+			}
+		}
 		switch {
 		case sent == 0:
 			chk(recv, m.X, new(big.Int).Neg(emit))
